@@ -176,10 +176,12 @@ instance (b : BBox) : Decidable b.RT := by unfold BBox.RT; infer_instance
 structure NumOK (num : F64 → Json) (fin : F64 → Prop) : Prop where
   eq : ∀ b, fin b → num b = .dbl b
   box : ∀ c, isNaN c = false → fin (infToMax c)
+  zero : fin 0
 
-theorem numOK_mem : NumOK Json.dbl (fun _ => True) := ⟨fun _ _ => rfl, fun _ _ => trivial⟩
+theorem numOK_mem : NumOK Json.dbl (fun _ => True) :=
+  ⟨fun _ _ => rfl, fun _ _ => trivial, trivial⟩
 theorem numOK_text : NumOK numText (fun b => isFinite b = true) :=
-  ⟨fun b h => by simp [numText, h], isFinite_infToMax⟩
+  ⟨fun b h => by simp [numText, h], isFinite_infToMax, by decide⟩
 
 theorem null_not_valid : BBox.null.valid = false := by decide
 
@@ -204,6 +206,8 @@ theorem decodeBBox_encodeBBox {num : F64 → Json} {fin : F64 → Prop} (hn : Nu
 /-! ### transforms -/
 
 def Transform.Fin (fin : F64 → Prop) (t : Transform) : Prop := ∀ b ∈ t.data, fin b
+instance (fin : F64 → Prop) [DecidablePred fin] (t : Transform) : Decidable (t.Fin fin) := by
+  unfold Transform.Fin; infer_instance
 
 theorem importTransform_export {num : F64 → Json} {fin : F64 → Prop} (hn : NumOK num fin)
     (t : Transform) (h : t.Fin fin) : importTransform (exportTransform num t) = .ok t := by
